@@ -398,6 +398,12 @@ func (s *Sorts) strLitDecls() string {
 	for _, lit := range s.strOrder {
 		n := s.strLits[lit]
 		fmt.Fprintf(&b, "(declare-const %s Str)\n(assert (= (strlen %s) %d))\n", n, n, len(lit))
+		if len(lit) <= 32 {
+			// the bytes of a short literal (so that `string(buf) == "  V2"` says what buf holds)
+			for i := 0; i < len(lit); i++ {
+				fmt.Fprintf(&b, "(assert (= (str_at %s %d) %d))\n", n, i, lit[i])
+			}
+		}
 		names = append(names, n)
 	}
 	b.WriteString("(assert (= (strlen str_empty) 0))\n")
